@@ -1,7 +1,15 @@
 import BufModel.Cache
 import BufProofs.Lemmas.CacheLemmas
+import BufModel.Faults
+import BufProofs.Props.C15
 /-
   C09 — The module cache never serves wrong content: crashes, faults, races, tampering.
+
+  Writer side (audit item S2): the directory-layout writer is the step machine of
+  BufModel.Cache — files written in ANY order, several in flight, each holding an arbitrary
+  prefix — for any number of writers, from ANY leftover entry; "a failed write is reported
+  before the marker" is derived from the C15 fault model (`storeRun` over `copyAll` /
+  `atomicRun`); the tar layout is one atomic object.
 -/
 namespace BufProofs.C09
 open BufModel.Path BufModel.Bucket BufModel.Cache
@@ -46,114 +54,250 @@ theorem served_content_matches_key_tar (exp : Expected) (t : Option (Option Mem)
 
 theorem corrupt_tar_is_miss_and_removed (exp : Expected) : loadTar exp (some none) = (.miss, none) := rfl
 
-/-- The initial system: empty (or absent) entry, nobody holds the lock, `n` writers about to
-    store the same module. -/
-def init (n : Nat) : Sys := { entry := [], lock := none, writers := List.replicate n .start }
+/-- The initial system: ANY entry `e` left behind by earlier processes (torn prefixes, missing
+    files, complete files in any combination), nobody holds the lock, `n` writers about to store
+    the same module. -/
+def initFrom (e : Mem) (n : Nat) : Sys := { entry := e, lock := none, writers := List.replicate n .start }
 
-theorem init_inv (exp : Expected) (n : Nat) : Inv exp (init n) := by
-  refine ⟨?_, ?_, ?_, ?_, ?_⟩
-  · intro h; simp [init, markerOK, Mem.find] at h
-  · intro w i t h
-    simp only [init] at h
+/-- The empty (or absent) entry. -/
+def init (n : Nat) : Sys := initFrom [] n
+
+theorem initFrom_inv (exp : Expected) (e : Mem) (n : Nat)
+    (hk : OnlyPayloadKeys exp e) (hn : NodupKeys e) (hm : markerOK e = false) : Inv exp (initFrom e n) := by
+  refine ⟨?_, ?_, ?_, hk, hn⟩
+  · intro h; simp only [initFrom] at h; rw [hm] at h; cases h
+  · intro w d f h
+    simp only [initFrom] at h
     by_cases hw : w < n
     · rw [List.getElem?_replicate] at h; simp [hw] at h
     · rw [List.getElem?_replicate] at h; simp [hw] at h
   · intro w h; cases h
-  · intro kv h; cases h
-  · simp [init, NodupKeys]
 
-/-- marker_implies_complete: for every interleaving of any number of writers storing the module
-    — with crashes at any step, failures of any write, and torn (truncated) files in between —
-    whenever the commit marker is valid, every file and side file is present in full. -/
-theorem marker_implies_complete (exp : Expected) (wf : WF exp) (n : Nat) (acts : List Act)
-    (h : markerOK (runActs exp (init n) acts).entry = true) :
-    Complete exp (runActs exp (init n) acts).entry ∧
-      (runActs exp (init n) acts).entry.find markerPath = some markerCanonical :=
-  (runActs_inv wf acts (init n) (init_inv exp n)).markerComplete h
+theorem init_inv (exp : Expected) (n : Nat) : Inv exp (init n) :=
+  initFrom_inv exp [] n (by intro kv h; cases h) (by simp [NodupKeys]) (by simp [markerOK, Mem.find])
+
+/-- marker_implies_complete: start from ANY entry without a valid marker (whatever earlier
+    crashed/failed stores left: torn prefixes, missing or complete files) and take any
+    interleaving of any number of writers storing the module — files written in parallel in any
+    order, crashes at any step, failures of any write.  Whenever the commit marker is valid, every
+    file and side file is present in full. -/
+theorem marker_implies_complete (exp : Expected) (wf : WF exp) (e : Mem)
+    (hk : OnlyPayloadKeys exp e) (hn : NodupKeys e) (hm : markerOK e = false) (n : Nat) (acts : List Act)
+    (h : markerOK (runActs exp (initFrom e n) acts).entry = true) :
+    Complete exp (runActs exp (initFrom e n) acts).entry ∧
+      (runActs exp (initFrom e n) acts).entry.find markerPath = some markerCanonical :=
+  (runActs_inv wf acts (initFrom e n) (initFrom_inv exp e n hk hn hm)).markerComplete h
 
 /-- At most one writer is ever between acquiring the lock and releasing it. -/
-theorem writers_exclusive (exp : Expected) (wf : WF exp) (n : Nat) (acts : List Act) (w w' i i' : Nat) (t t' : Bool)
-    (h : (runActs exp (init n) acts).writers[w]? = some (.writing i t))
-    (h' : (runActs exp (init n) acts).writers[w']? = some (.writing i' t')) : w = w' :=
-  writing_unique (runActs_inv wf acts (init n) (init_inv exp n)) h h'
+theorem writers_exclusive (exp : Expected) (wf : WF exp) (e : Mem)
+    (hk : OnlyPayloadKeys exp e) (hn : NodupKeys e) (hm : markerOK e = false) (n : Nat) (acts : List Act)
+    (w w' : Nat) (d d' : List Nat) (f f' : List (Nat × Nat))
+    (h : (runActs exp (initFrom e n) acts).writers[w]? = some (.writing d f))
+    (h' : (runActs exp (initFrom e n) acts).writers[w']? = some (.writing d' f')) : w = w' :=
+  writing_unique (runActs_inv wf acts (initFrom e n) (initFrom_inv exp e n hk hn hm)) h h'
+
+/-- What a reader (or a crash) can find while a store is in progress: every object the writer has
+    closed is there in full, and every object in flight holds exactly a prefix of its content —
+    never bytes of anything else. -/
+theorem inflight_is_prefix (exp : Expected) (wf : WF exp) (e : Mem)
+    (hk : OnlyPayloadKeys exp e) (hn : NodupKeys e) (hm : markerOK e = false) (n : Nat) (acts : List Act)
+    (w : Nat) (d : List Nat) (f : List (Nat × Nat))
+    (h : (runActs exp (initFrom e n) acts).writers[w]? = some (.writing d f)) :
+    (∀ i ∈ d, ∀ pc, exp.payload[i]? = some pc → (runActs exp (initFrom e n) acts).entry.find pc.1 = some pc.2) ∧
+    (∀ ik ∈ f, ik.1 ∉ d ∧ ∃ pc, exp.payload[ik.1]? = some pc ∧ ik.2 ≤ pc.2.length ∧
+      (runActs exp (initFrom e n) acts).entry.find pc.1 = some (takeStr ik.2 pc.2)) :=
+  ((runActs_inv wf acts (initFrom e n) (initFrom_inv exp e n hk hn hm)).writing w d f h).2.2
 
 /-- complete_is_stable: once the marker is valid no step of any writer modifies the entry, so
     readers may stream the files without holding the lock. -/
 theorem complete_is_stable (exp : Expected) (s : Sys) (inv : Inv exp s) (hm : markerOK s.entry = true) (a : Act) :
-    (step exp s a).entry = s.entry := by
-  have nowriting : ∀ (w i : Nat) (t : Bool), s.writers[w]? ≠ some (WPc.writing i t) := by
-    intro w i t h
-    have := (inv.writing w i t h).2.1
-    rw [hm] at this; cases this
-  cases a with
-  | acquire w =>
-    simp only [step]; split
-    · split <;> rfl
-    · rfl
-  | truncate w =>
-    simp only [step]; split
-    · rename_i i hw; exact absurd hw (nowriting w i false)
-    · rfl
-  | fill w =>
-    simp only [step]; split
-    · rename_i i hw; exact absurd hw (nowriting w i true)
-    · rfl
-  | fail w =>
-    simp only [step]; split
-    · split <;> rfl
-    · rfl
-  | commit w =>
-    simp only [step]; split
-    · rename_i i hw; exact absurd hw (nowriting w i false)
-    · rfl
-  | commitFail w =>
-    simp only [step]; split
-    · split <;> rfl
-    · rfl
-  | crash w =>
-    simp only [step]; split <;> rfl
+    (step exp s a).entry = s.entry :=
+  step_entry_stable exp s inv hm a
 
-/-- failed_store_not_complete: for any number of concurrent writers and any interleaving with
-    crashes and failures, the entry is marked complete only if some store returned success;
-    in particular a single failed or interrupted store never leaves the entry marked complete. -/
-theorem failed_store_not_complete (exp : Expected) (wf : WF exp) (n : Nat) (acts : List Act)
-    (h : ∀ w : Nat, (runActs exp (init n) acts).writers[w]? ≠ some (WPc.finished true)) :
-    markerOK (runActs exp (init n) acts).entry = false := by
-  cases hmk : markerOK (runActs exp (init n) acts).entry with
+/-- failed_store_not_complete (marker_needs_success): for any number of concurrent writers and any
+    interleaving with crashes and failures, the entry is marked complete only if some store
+    returned success; a failed or interrupted store never leaves the entry marked complete. -/
+theorem failed_store_not_complete (exp : Expected) (wf : WF exp) (e : Mem) (hm : markerOK e = false)
+    (n : Nat) (acts : List Act)
+    (h : ∀ w : Nat, (runActs exp (initFrom e n) acts).writers[w]? ≠ some (WPc.finished true)) :
+    markerOK (runActs exp (initFrom e n) acts).entry = false := by
+  cases hmk : markerOK (runActs exp (initFrom e n) acts).entry with
   | false => rfl
   | true =>
     exfalso
-    obtain ⟨w, hw⟩ := marker_needs_success exp wf acts (init n)
-      (by intro h; simp [init, markerOK, Mem.find] at h) hmk
+    obtain ⟨w, hw⟩ := marker_needs_success exp wf acts (initFrom e n)
+      (by intro h; simp only [initFrom] at h; rw [hm] at h; cases h) hmk
     exact h w hw
 
-/-- later_store_repairs: take ANY state reachable by any interleaving of writers with crashes and
-    failures in which no process is currently inside a store (the lock is free) — files may be
-    missing, truncated or half-written and there may be no marker.  One further, fault-free
-    store of the same module ends with a valid marker, returns success, and every file and side
-    file is then present in full. -/
-theorem later_store_repairs (exp : Expected) (wf : WF exp) (n : Nat) (acts : List Act) (w : Nat)
-    (hlock : (runActs exp (init n) acts).lock = none)
-    (hw : (runActs exp (init n) acts).writers[w]? = some WPc.start) :
-    let s' := runActs exp (runActs exp (init n) acts) (storeActs exp w)
-    markerOK s'.entry = true ∧ s'.writers[w]? = some (WPc.finished true) ∧ Complete exp s'.entry := by
-  have inv := runActs_inv wf acts (init n) (init_inv exp n)
-  obtain ⟨h1, h2⟩ := store_completes exp (runActs exp (init n) acts) w hlock hw
-  have inv' := runActs_inv wf (storeActs exp w) _ inv
-  exact ⟨h1, h2, (inv'.markerComplete h1).1⟩
-
-/-- store_success_then_hit: in every reachable state (any interleaving, crashes, failures) in
-    which the marker is valid, a load is a HIT and serves exactly the pinned module files —
-    so "store returned nil ⇒ the next load is a hit with exactly the files", and after
-    `later_store_repairs` the repaired entry loads. -/
-theorem store_success_then_hit (exp : Expected) (wf : WF exp) (hside : SidesOutsideFiles exp)
+/-- store_success_then_hit: in every reachable state (any interleaving, crashes, failures, any
+    starting entry without a valid marker) in which the marker is valid, a load is a HIT and
+    serves exactly the pinned module files. -/
+theorem store_success_then_hit (exp : Expected) (wf : WF exp) (hside : SidesOutsideFiles exp) (e : Mem)
+    (hk : OnlyPayloadKeys exp e) (hn : NodupKeys e) (hm : markerOK e = false)
     (n : Nat) (acts : List Act)
-    (h : markerOK (runActs exp (init n) acts).entry = true) :
-    load exp (runActs exp (init n) acts).entry = .hit (moduleFilesOf (runActs exp (init n) acts).entry) ∧
-      sameSet (moduleFilesOf (runActs exp (init n) acts).entry) (exp.files.filter fun f => isModuleFile f.1) = true := by
-  have inv := runActs_inv wf acts (init n) (init_inv exp n)
-  obtain ⟨hc, hm⟩ := inv.markerComplete h
-  exact complete_loads_hit exp hside _ hc hm inv.keys inv.nodupKeys
+    (h : markerOK (runActs exp (initFrom e n) acts).entry = true) :
+    load exp (runActs exp (initFrom e n) acts).entry = .hit (moduleFilesOf (runActs exp (initFrom e n) acts).entry) ∧
+      sameSet (moduleFilesOf (runActs exp (initFrom e n) acts).entry) (exp.files.filter fun f => isModuleFile f.1) = true := by
+  have inv := runActs_inv wf acts (initFrom e n) (initFrom_inv exp e n hk hn hm)
+  obtain ⟨hc, hmc⟩ := inv.markerComplete h
+  exact complete_loads_hit exp hside _ hc hmc inv.keys inv.nodupKeys
+
+/-- "store returned nil ⇒ the next load is a hit": in every reachable state in which SOME store
+    has returned success — at that moment and at any later one, whatever the other writers do —
+    the marker is valid and a load serves exactly the pinned module files. -/
+theorem store_returned_nil_then_hit (exp : Expected) (wf : WF exp) (hside : SidesOutsideFiles exp) (e : Mem)
+    (hk : OnlyPayloadKeys exp e) (hn : NodupKeys e) (hm : markerOK e = false)
+    (n : Nat) (acts : List Act) (w : Nat)
+    (h : (runActs exp (initFrom e n) acts).writers[w]? = some (WPc.finished true)) :
+    markerOK (runActs exp (initFrom e n) acts).entry = true ∧
+    load exp (runActs exp (initFrom e n) acts).entry = .hit (moduleFilesOf (runActs exp (initFrom e n) acts).entry) := by
+  have hmk := success_needs_marker exp wf acts (initFrom e n) (initFrom_inv exp e n hk hn hm)
+    (by intro w0 h0
+        simp only [initFrom] at h0
+        rw [List.getElem?_replicate] at h0
+        split at h0 <;> cases h0) w h
+  exact ⟨hmk, (store_success_then_hit exp wf hside e hk hn hm n acts hmk).1⟩
+
+/-- later_store_repairs: take ANY entry whose keys are payload paths (or the marker), without a
+    valid marker and whose marker, if any, parses — whatever torn prefixes, missing files or
+    complete files it holds, in particular "a later file complete, an earlier one torn" — then any
+    history `hist` of further stores that crashed or failed, leaving the lock free.  One
+    fault-free store by a fresh writer, writing the files in ANY order with any number in flight
+    and growing by arbitrary prefixes (`FaultFree`), returns success, releases the lock, leaves
+    every file and side file in full with the canonical marker, and a load HITS with exactly the
+    pinned module files. -/
+theorem later_store_repairs (exp : Expected) (wf : WF exp) (hside : SidesOutsideFiles exp) (e : Mem)
+    (hk : OnlyPayloadKeys exp e) (hn : NodupKeys e) (hm : markerOK e = false) (hg : markerGarbled e = false)
+    (n : Nat) (hist : List Act) (w : Nat)
+    (hlock : (runActs exp (initFrom e n) hist).lock = none)
+    (hw : (runActs exp (initFrom e n) hist).writers[w]? = some WPc.start)
+    (acts : List Act) (hff : FaultFree exp w acts) :
+    let s' := runActs exp (runActs exp (initFrom e n) hist) (storeWith w acts)
+    markerOK s'.entry = true ∧ s'.writers[w]? = some (WPc.finished true) ∧ s'.lock = none ∧
+      Complete exp s'.entry ∧ load exp s'.entry = .hit (moduleFilesOf s'.entry) ∧
+      sameSet (moduleFilesOf s'.entry) (exp.files.filter fun f => isModuleFile f.1) = true := by
+  have inv := runActs_inv wf hist (initFrom e n) (initFrom_inv exp e n hk hn hm)
+  have hg' := runActs_garbled exp wf hist (initFrom e n) hg
+  obtain ⟨h1, h2, h3⟩ := store_completes exp wf (runActs exp (initFrom e n) hist) inv w hlock hw hg' acts hff
+  have inv' := runActs_inv wf (storeWith w acts) _ inv
+  obtain ⟨hc, hmc⟩ := inv'.markerComplete h1
+  obtain ⟨l1, l2⟩ := complete_loads_hit exp hside _ hc hmc inv'.keys inv'.nodupKeys
+  exact ⟨h1, h2, h3, hc, l1, l2⟩
+
+/-- As coded: a `module.yaml` that is present but not parsable makes `putModuleData` return the
+    YAML error — the store neither takes the lock nor writes anything, so such an entry is NOT
+    repaired by later stores (the reader treats it as a miss every time).  Only tampering can
+    produce it: `runActs_garbled` shows no writer history does. -/
+theorem unparsable_marker_blocks_store (exp : Expected) (s : Sys) (w : Nat)
+    (hw : s.writers[w]? = some WPc.start) (hlock : s.lock = none) (hg : markerGarbled s.entry = true) :
+    (step exp s (.acquire w)).writers[w]? = some (WPc.finished false) ∧
+      (step exp s (.acquire w)).entry = s.entry ∧ (step exp s (.acquire w)).lock = none := by
+  have hm : markerOK s.entry = false := by
+    unfold markerGarbled at hg; unfold markerOK
+    cases hf : s.entry.find markerPath with
+    | none => rfl
+    | some tok =>
+      rw [hf] at hg; simp only [decide_eq_true_eq] at hg; subst hg; decide
+  have h1 : step exp s (.acquire w) = { s with writers := setPc s.writers w (WPc.finished false) } := by
+    simp only [step, hw, hlock, hm, hg, if_true]; rfl
+  rw [h1]
+  exact ⟨by simp only [setPc]; exact getElem?_set_eq _ _ _ (lt_of_getElem?_some hw), rfl, hlock⟩
+
+/-- No history of writers (crashes, failures, anything) produces an unparsable marker. -/
+theorem writers_never_garble_marker (exp : Expected) (wf : WF exp) (e : Mem) (hg : markerGarbled e = false)
+    (n : Nat) (acts : List Act) : markerGarbled (runActs exp (initFrom e n) acts).entry = false :=
+  runActs_garbled exp wf acts (initFrom e n) hg
+
+/-! ### "A failed write is reported before the marker" — derived from the C15 model -/
+
+open BufModel.Faults in
+/-- marker_only_after_reported_success: run the store's write phase (`storage.Copy` of the files =
+    C15 `copyAll`, `PutPath` of the side files, atomic `PutPath` of the marker = C15 `atomicRun`)
+    under ANY fault schedule.  If it reports success then no scheduled fault fired, no step of
+    the marker put failed, every payload object is in the entry in full and the marker is the one
+    that was put. -/
+theorem marker_only_after_reported_success (exp : Expected) (wf : WF exp) (hv : PayloadValid exp)
+    (chunk : Content → List Content) (hchunk : ∀ c, joinContent (chunk c) = c)
+    (s : Sched) (mch : List Content) (mfail : Option Nat) (hr : FailAtInRange mch mfail) (d d' : Dest)
+    (h : storeRun Facts.allTrue s mch mfail d (fileJobs exp chunk) (sideJobs exp chunk) = (false, d')) :
+    d'.fired = d.fired ∧ mfail = none ∧ Complete exp d'.mem ∧
+      d'.mem.find markerPath = some (joinContent mch) :=
+  storeRun_ok exp wf hv chunk hchunk s mch mfail hr d d' h
+
+open BufModel.Faults in
+/-- fault_fires_then_store_errors: if any scheduled fault fires while the files or side files are
+    written, the store reports an error … -/
+theorem fault_fires_then_store_errors (exp : Expected) (wf : WF exp) (hv : PayloadValid exp)
+    (chunk : Content → List Content) (hchunk : ∀ c, joinContent (chunk c) = c)
+    (s : Sched) (mch : List Content) (mfail : Option Nat) (hr : FailAtInRange mch mfail) (d : Dest)
+    (hfired : (storeRun Facts.allTrue s mch mfail d (fileJobs exp chunk) (sideJobs exp chunk)).2.fired ≠ d.fired) :
+    (storeRun Facts.allTrue s mch mfail d (fileJobs exp chunk) (sideJobs exp chunk)).1 = true :=
+  storeRun_fault_reported exp wf hv chunk hchunk s mch mfail hr d hfired
+
+open BufModel.Faults in
+/-- … and store_error_leaves_marker_untouched: a store that reports an error — whichever phase
+    failed, with whatever defer plumbing (`fx`) — has not written the marker: the object at
+    `module.yaml` is the one that was there before, so an entry without a valid marker stays
+    without one. -/
+theorem store_error_leaves_marker_untouched (exp : Expected) (wf : WF exp) (hv : PayloadValid exp)
+    (chunk : Content → List Content) (fx : Facts)
+    (s : Sched) (mch : List Content) (mfail : Option Nat) (d : Dest)
+    (h : (storeRun fx s mch mfail d (fileJobs exp chunk) (sideJobs exp chunk)).1 = true) :
+    markerOK (storeRun fx s mch mfail d (fileJobs exp chunk) (sideJobs exp chunk)).2.mem = markerOK d.mem := by
+  unfold markerOK
+  rw [storeRun_err_marker_untouched exp wf hv chunk fx s mch mfail d h]
+
+/-! ### Tar layout: one atomic object -/
+
+/-- At every instant of a tar store — what a concurrent reader sees and what a crash leaves — the
+    object at the tar path is the previous one (or absent) or the complete new archive. -/
+theorem tar_instant_old_or_new (old : Option Content) (chunks : List Content) (j : Nat) :
+    (tarCrash old chunks j).final = old ∨ (tarCrash old chunks j).final = some (BufModel.Faults.joinContent chunks) :=
+  BufProofs.C15.atomic_prefix_old_or_new old chunks j
+
+/-- A tar store in which any step fails reports an error and leaves the previous object. -/
+theorem tar_failed_put_leaves_old (old : Option Content) (chunks : List Content) (k : Nat)
+    (hk : k ≤ chunks.length + 2) :
+    tarStore old chunks (some k) = (true, { final := old, temp := none }) :=
+  BufProofs.C15.atomic_failed_leaves_old old chunks k hk
+
+/-- A fault-free tar store (over anything: absent, garbage, an older archive) reports success and
+    the archive then loads as a HIT with exactly the pinned module files. -/
+theorem tar_store_then_hit (exp : Expected) (wf : WF exp) (hside : SidesOutsideFiles exp)
+    (decode : Content → Option Mem) (old : Option Content) (chunks : List Content)
+    (hdec : decode (BufModel.Faults.joinContent chunks) = some (tarEntry exp)) :
+    (tarStore old chunks none).1 = false ∧
+      (loadTar exp (tarView decode (tarStore old chunks none).2)).1 = .hit (moduleFilesOf (tarEntry exp)) ∧
+      sameSet (moduleFilesOf (tarEntry exp)) (exp.files.filter fun f => isModuleFile f.1) = true := by
+  have hs : tarStore old chunks none = (false, { final := some (BufModel.Faults.joinContent chunks), temp := none }) :=
+    BufProofs.C15.atomic_success old chunks
+  obtain ⟨l1, l2⟩ := complete_loads_hit exp hside (tarEntry exp) (tarEntry_complete wf) (tarEntry_marker exp)
+    (tarEntry_onlyKeys exp) (tarEntry_nodup wf)
+  rw [hs]
+  refine ⟨rfl, ?_, l2⟩
+  simp only [tarView, Option.map, hdec, loadTar]
+  exact l1
+
+/-- At every crash point of a tar store a load behaves exactly as on the previous object, or is a
+    HIT with the pinned module files — never anything in between. -/
+theorem tar_crash_old_or_hit (exp : Expected) (wf : WF exp) (hside : SidesOutsideFiles exp)
+    (decode : Content → Option Mem) (old : Option Content) (chunks : List Content)
+    (hdec : decode (BufModel.Faults.joinContent chunks) = some (tarEntry exp)) (j : Nat) :
+    loadTar exp (tarView decode (tarCrash old chunks j)) = loadTar exp (old.map decode) ∨
+      (loadTar exp (tarView decode (tarCrash old chunks j))).1 = .hit (moduleFilesOf (tarEntry exp)) := by
+  rcases tar_instant_old_or_new old chunks j with h | h
+  · left; simp only [tarView, h]
+  · right
+    obtain ⟨l1, _⟩ := complete_loads_hit exp hside (tarEntry exp) (tarEntry_complete wf) (tarEntry_marker exp)
+      (tarEntry_onlyKeys exp) (tarEntry_nodup wf)
+    simp only [tarView, h, Option.map, hdec, loadTar]
+    exact l1
+
+/-- An archive that does not decode is a miss and is removed (so the next store starts clean). -/
+theorem tar_corrupt_is_miss_and_removed (exp : Expected) (decode : Content → Option Mem) (c : Content)
+    (h : decode c = none) :
+    loadTar exp (tarView decode { final := some c, temp := none }) = (.miss, none) := by
+  simp [tarView, h, loadTar]
 
 /-- provider_never_returns_missing: the cache provider either yields a load result that is not a
     miss, or an error. -/
@@ -164,12 +308,91 @@ theorem provider_never_returns_missing (r1 : LoadResult) (putOk : Bool) (r2 : Lo
 
 -- non-vacuity
 def exExp : Expected :=
-  { files := [("a.proto".toList, "A"), ("x.txt".toList, "X")], sides := [("v1_buf_yaml/buf.yaml".toList, "Y")] }
+  { files := [("a.proto".toList, "AAAA"), ("x.txt".toList, "X")], sides := [("v1_buf_yaml/buf.yaml".toList, "Y")] }
 example : WF exExp := ⟨by decide, by decide⟩
 example : SidesOutsideFiles exExp := by intro s hs; simp [exExp] at hs; subst hs; decide
-example : (runActs exExp (init 2) [.acquire 0, .truncate 0, .fill 0, .crash 0, .acquire 1, .truncate 1, .fill 1,
-    .truncate 1, .fill 1, .truncate 1, .fill 1, .commit 1]).entry.find markerPath = some markerCanonical := by decide
-example : (match load exExp (runActs exExp (init 2) [.acquire 0, .truncate 0, .fill 0, .crash 0, .acquire 1, .truncate 1, .fill 1,
-    .truncate 1, .fill 1, .truncate 1, .fill 1, .commit 1]).entry with | .hit _ => true | _ => false) = true := by decide
+
+/-- A leftover entry: the LATER file is complete, the EARLIER one is torn, the side file is
+    missing, and a parsable-but-invalid marker is present. -/
+def exTorn : Mem :=
+  [("files/x.txt".toList, "X"), ("files/a.proto".toList, "AA"), (markerPath, "Minvalid0")]
+example : OnlyPayloadKeys exExp exTorn := by unfold OnlyPayloadKeys; decide
+example : NodupKeys exTorn := by unfold NodupKeys; decide
+example : markerOK exTorn = false ∧ markerGarbled exTorn = false := by decide
+
+/-- parallel copy: everything in flight at once, prefixes growing, closed in another order -/
+def exActs : List Act :=
+  [.truncate 1 2, .truncate 1 0, .truncate 1 1, .grow 1 0 2, .fill 1 1, .grow 1 0 3, .fill 1 2, .fill 1 0]
+example : FaultFree exExp 1 exActs :=
+  ⟨by decide, by
+    intro i hi
+    have : i = 0 ∨ i = 1 ∨ i = 2 := by simp [exExp, Expected.payload] at hi; omega
+    rcases this with e | e | e <;> subst e
+    · exact ⟨[.truncate 1 2], [.truncate 1 1, .grow 1 0 2, .fill 1 1, .grow 1 0 3, .fill 1 2], [], rfl⟩
+    · exact ⟨[.truncate 1 2, .truncate 1 0], [.grow 1 0 2], [.grow 1 0 3, .fill 1 2, .fill 1 0], rfl⟩
+    · exact ⟨[], [.truncate 1 0, .truncate 1 1, .grow 1 0 2, .fill 1 1, .grow 1 0 3], [.fill 1 0], rfl⟩⟩
+example : FaultFree exExp 1 (seqSchedule 1 [2, 0, 1]) :=
+  seqSchedule_faultFree exExp 1 [2, 0, 1] (by decide)
+example : FaultFree exExp 1 (parSchedule 1 [2, 0, 1] [1, 2, 0]) :=
+  parSchedule_faultFree exExp 1 _ _ (by decide) (by decide)
+-- the hypotheses of later_store_repairs: writer 0 crashes mid-store on the torn entry, writer 1 is fresh
+example : (runActs exExp (initFrom exTorn 2) [.acquire 0, .truncate 0 1, .truncate 0 0, .grow 0 0 1, .crash 0]).lock = none ∧
+    (runActs exExp (initFrom exTorn 2) [.acquire 0, .truncate 0 1, .truncate 0 0, .grow 0 0 1, .crash 0]).writers[1]? = some .start := by
+  decide
+example : (runActs exExp (runActs exExp (initFrom exTorn 2) [.acquire 0, .truncate 0 1, .truncate 0 0, .grow 0 0 1, .crash 0])
+    (storeWith 1 exActs)).entry.find markerPath = some markerCanonical := by decide
+example : (match load exExp (runActs exExp (runActs exExp (initFrom exTorn 2) [.acquire 0, .truncate 0 1, .truncate 0 0, .grow 0 0 1, .crash 0])
+    (storeWith 1 exActs)).entry with | .hit _ => true | _ => false) = true := by decide
+-- a state with two files in flight (inflight_is_prefix, writers_exclusive are not vacuous)
+example : (runActs exExp (init 2) [.acquire 0, .acquire 1, .truncate 0 1, .truncate 0 0, .grow 0 0 3]).writers[0]? =
+    some (.writing [] [(0, 3), (1, 0)]) := by decide
+-- a failed store and an unparsable marker
+example : markerOK (runActs exExp (init 1) [.acquire 0, .truncate 0 0, .fill 0 0, .fail 0]).entry = false := by decide
+example : markerGarbled [(markerPath, markerUnparsable)] = true := by decide
+-- the fault link
+example : PayloadValid exExp := by unfold PayloadValid; decide
+example : ∀ c, BufModel.Faults.joinContent ((fun c => [c]) c) = c := by intro c; simp [BufModel.Faults.joinContent]
+example : FailAtInRange ["M:", "canonical"] (some 4) ∧ FailAtInRange ["M:", "canonical"] none := by
+  constructor <;> intro k h <;> simp at h <;> (subst h; decide)
+
+def exChunk : Content → List Content := fun c => [c]
+
+set_option maxRecDepth 100000 in
+/-- cache_poison_counterexample (the recorded finding, fixed in /repo a3d0d8c): with the pre-fix
+    `copyPath` (its deferred Close joined a stale variable) a failed file Put is reported as
+    success by `storage.Copy`, so the store writes the marker over an entry that lacks the file:
+    every later load is a digest mismatch and — the marker being valid — no later store repairs
+    it.  This is exactly the step `marker_only_after_reported_success` rules out for the current
+    facts. -/
+theorem cache_poison_counterexample :
+    let fx : BufModel.Faults.Facts := { BufModel.Faults.Facts.allTrue with copyPath := false }
+    let s : BufModel.Faults.Sched := [⟨"files/a.proto".toList, .put, 0⟩]
+    let r := storeRun fx s [markerCanonical] none ⟨[], []⟩ (fileJobs exExp exChunk) (sideJobs exExp exChunk)
+    r.1 = false ∧ r.2.mem.find markerPath = some markerCanonical ∧ r.2.mem.find "files/a.proto".toList = none ∧
+      (match load exExp r.2.mem with | .mismatch => true | _ => false) = true := by decide
+
+set_option maxRecDepth 100000 in
+example :
+    let s : BufModel.Faults.Sched := [⟨"files/a.proto".toList, .put, 0⟩]
+    let r := storeRun BufModel.Faults.Facts.allTrue s [markerCanonical] none ⟨[], []⟩ (fileJobs exExp exChunk) (sideJobs exExp exChunk)
+    r.1 = true ∧ r.2.fired ≠ [] ∧ markerOK r.2.mem = false := by decide
+
+set_option maxRecDepth 100000 in
+example : (storeRun BufModel.Faults.Facts.allTrue [] [markerCanonical] none ⟨[], []⟩
+    (fileJobs exExp exChunk) (sideJobs exExp exChunk)).1 = false := by decide
+
+-- store_returned_nil_then_hit: a reachable state in which a store has returned success
+example : (runActs exExp (initFrom exTorn 2) (storeWith 1 exActs)).writers[1]? = some (.finished true) := by decide
+-- unparsable_marker_blocks_store: its hypotheses hold in the initial system over a garbled entry
+example : (initFrom [(markerPath, markerUnparsable)] 1).writers[0]? = some .start ∧
+    (initFrom [(markerPath, markerUnparsable)] 1).lock = none ∧
+    markerGarbled (initFrom [(markerPath, markerUnparsable)] 1).entry = true := by decide
+-- tar layout: a codec under which the archive decodes to the serialised entry
+example : (fun c : Content => if c = "abcd" then some (tarEntry exExp) else none)
+    (BufModel.Faults.joinContent ["ab", "cd"]) = some (tarEntry exExp) := by decide
+example : (fun c : Content => if c = "abcd" then some (tarEntry exExp) else none) "garbage" = none := by decide
+-- tar layout
+example : (tarStore (some "OLD") ["ab", "cd"] none).2.final = some "abcd" := by decide
+example : tarStore (some "OLD") ["ab", "cd"] (some 2) = (true, { final := some "OLD", temp := none }) := by decide
 
 end BufProofs.C09
